@@ -62,18 +62,19 @@ def _activate(srv, loop, name):
 # ---------------------------------------------------------------------------
 
 
-def restart_step(k1: int, k2: int, k3: int, u1: int, u2: int, u3: int, slack: int, s1: bool, s2: bool, s3: bool, f1: bool, f2: bool, f3: bool, sub: bool, newer: bool, marked: bool) -> bool:
+def restart_step(k1: int, k2: int, k3: int, u1: int, u2: int, u3: int, slack: int, s1: bool, s2: bool, s3: bool, f1: bool, f2: bool, f3: bool, sub: bool, newer: bool, marked: bool, clr: bool = False) -> bool:
     """
     pre: 1 <= k1 <= 2 and 1 <= k2 <= 3 and 1 <= k3 <= 2 and 1 <= u1 <= 2 and 1 <= u2 <= 3 and 1 <= u3 <= 2 and 0 <= slack <= 2
     pre: core.PARAMS.get("kgaps") is None or [k1, k2, k3] == core.PARAMS["kgaps"]
     pre: core.PARAMS.get("ugaps") is None or [u1, u2, u3] == core.PARAMS["ugaps"]
+    pre: not clr or core.PARAMS.get("prop") == "C12"
     pre: core.PARAMS.get("smn") is None or [sub, newer, marked] == [bool(core.PARAMS["smn"] & 1), bool(core.PARAMS["smn"] & 2), bool(core.PARAMS["smn"] & 4)]
     post: _
     """
     return held(_restart_step, locals())
 
 
-def _restart_step(k1, k2, k3, u1, u2, u3, slack, s1, s2, s3, f1, f2, f3, sub, newer, marked):
+def _restart_step(k1, k2, k3, u1, u2, u3, slack, s1, s2, s3, f1, f2, f3, sub, newer, marked, clr=False):
     n = core.PARAMS["n"]
     tag = "restart_step"
     keys = env.gaps_to_keys([k1, k2, k3][:n])
@@ -86,6 +87,21 @@ def _restart_step(k1, k2, k3, u1, u2, u3, slack, s1, s2, s3, f1, f2, f3, sub, ne
     mb = env.make_mailbox(srv, "box", keys, uids, {"Seen": seen, "unseen": set(keys) - seen, "flagged": flg, "kw": set(keys[:1])}, next_uid=next_uid, uid_vv=7, contents=CONTENT[:n], mtimes=MT[:n], attributes=attrs, subscribed=sub)
     srv.uid_vv = 9
     run(srv.db.execute("UPDATE user_server SET uid_vv = ?", ("9",), commit=True))
+    if clr and n:
+        # history before the shutdown: the state above was persisted, then the keyword and \\Flagged were
+        # removed from every message that carried them (what STORE -FLAGS does) and persisted again
+        run(mb.commit_to_db())
+        for k in keys:
+            for name in ("kw", "flagged"):
+                if k in mb.sequences.get(name, ()):
+                    mb._help_remove_flag(k, name)
+
+        async def _write():
+            async with mb.mh_sequences_lock:
+                mb.set_sequences_in_folder(mb.sequences)
+
+        run(_write())
+        run(mb.commit_to_db())
     before = _observe(mb, srv)
     content_before = {u: mb.get_msg_by_uid(u).content for u in mb.uids}
     run(mb.shutdown())
